@@ -38,6 +38,7 @@ type GenSpec struct {
 	SpecHandler string // --spec-handler-name ("" => file base name)
 	Cors        bool
 	Meta        map[string]any
+	ViaCLI      bool     // run the built command (cmd/goag) instead of calling the package in-process
 	DirSpecName string   // non-empty: generated through GenerateDir (--dir) with this on-disk spec file name
 	Prior       *GenSpec // an earlier revision generated into the same directory first (its outcome is ignored)
 }
@@ -93,6 +94,35 @@ func runGoag(work string, s GenSpec) (res GenResult) {
 	}
 	g := goag.Generator{GenClient: s.Client, GenAPIHandler: !s.NoAPI, DoNotEdit: s.DoNotEdit}
 	var err error
+	if s.ViaCLI && s.DirSpecName == "" {
+		// the command as a user runs it: flag parsing and whatever main does with the values included
+		handler := s.SpecHandler
+		if handler == "" {
+			handler = filepath.Base(res.SpecPath) // the package API's default; the command's own default is openapi.yaml
+		}
+		a := []string{"--file", res.SpecPath, "--out", res.Dir, "--package", s.Name, "--config", cfg, "--spec-handler-name", handler,
+			"--client=" + fmt.Sprint(s.Client), "--api-handler=" + fmt.Sprint(!s.NoAPI), "--donotedit=" + fmt.Sprint(s.DoNotEdit)}
+		if s.BasePath != "" {
+			a = append(a, "--basepath", s.BasePath)
+		}
+		cli, cerr := builtCLI(work)
+		if cerr != nil {
+			res.Outcome, res.Detail = "error", "building cmd/goag: "+cerr.Error()
+			return res
+		}
+		out, xerr := exec.Command(cli, a...).CombinedOutput()
+		if xerr != nil {
+			res.Outcome = "error"
+			res.Detail = strings.TrimPrefix(strings.TrimSpace(string(out)), "Error on generate: ")
+			if strings.Contains(string(out), "goroutine ") && strings.Contains(string(out), "panic") {
+				res.Outcome = "panic"
+			}
+			return res
+		}
+		res.Outcome = "ok"
+		res.Fmt = fmtIssues(res.Dir)
+		return res
+	}
 	if s.DirSpecName != "" {
 		// directory mode: <specDir>/svc/<DirSpecName>, output relative to the service directory
 		svc := filepath.Join(specDir, "svc")
@@ -115,6 +145,25 @@ func runGoag(work string, s GenSpec) (res GenResult) {
 	res.Outcome = "ok"
 	res.Fmt = fmtIssues(res.Dir)
 	return res
+}
+
+var (
+	cliOnce sync.Once
+	cliPath string
+	cliErr  error
+)
+
+// builtCLI builds cmd/goag of the current tree once per process.
+func builtCLI(work string) (string, error) {
+	cliOnce.Do(func() {
+		cliPath = filepath.Join(work, "goag-cli-bin")
+		cmd := exec.Command("go", "build", "-o", cliPath, "github.com/vkd/goag/cmd/goag")
+		cmd.Env = goEnv()
+		if o, err := cmd.CombinedOutput(); err != nil {
+			cliErr = fmt.Errorf("%v: %s", err, tail(string(o), 400))
+		}
+	})
+	return cliPath, cliErr
 }
 
 // fmtIssues: every written file must parse and be gofmt-stable (format.Source is the identity on it).
